@@ -37,9 +37,6 @@ SOURCES = [
 ]
 # Obligations that are NOT claimed: (regex over the function name, regex over the ISA tag, reason).  Deterministic, by name.
 EXCLUDE = [
-    (r'^glm_(min|max|clamp)_(i32|u32)_', r'^sse2$',
-     'integer min/max/clamp of ivec4/uvec4 at SSE2: func_common_simd.inl uses _mm_min/max_epi32/_epu32 (SSE4.1) unconditionally, the instantiation '
-     'does not compile at -msse2 (compile-time defect, nothing to verify)'),
     (r'^glm_op_mul_(i32|u32)_', r'.',
      'integer * of aligned ivec/uvec (SSE2: _mm_mul_epu32 on even/odd lanes + shuffles; SSE4.1/AVX2: _mm_mullo_epi32): the bit-vector multiplier '
      'equivalence with the 32-bit product is not decided reliably (z3 answered the vv forms at SSE4.1 in 25-81 s in one run and hit the 900 s '
